@@ -8,18 +8,24 @@ _C07STUBS = [
     'static ELoc objects UNKNOWN/X/Z/V/SEL/DOM: field _value written by the harness in the solver build (-1/0/1/2/10/11, no static constructors there)',
     'VectorT<String>::begin() / VectorT<String>::erase(const_iterator) (only reached through Db::_colNames in deleteColumnByUID): '
     'integer model of the name table kept by the harness; Db::_colNames itself is never constructed',
+    'mesArg(title,current,nmax) (AStringable.cpp; error text of checkArg, formats through a va_list) -> empty',
     'Db object: raw storage, constructor not run; fields _ncol,_nech,_array,_uidcol,_p built directly (std::vector / VectorInt / PtrGeos are the real classes)',
 ]
 _C07ASSUME = ['pre-state: arbitrary tables satisfying the representation invariant I (identifier table one-to-one onto the columns, '
               'role lists hold live pairwise distinct identifiers, role types 3..28 empty)']
 
-K('C07.a', property='C07', engine='symex', harness='C07/locator.cpp', entry='k_set_locator', tus=_C07TUS,
-  defines={'all': {'VF_MODE': 0}, 'quick': {'VF_NCOL': 3, 'VF_NUID': 5, 'VF_NECH': 2}, 'thorough': {'VF_NCOL': 4, 'VF_NUID': 6, 'VF_NECH': 2}},
-  bounds={'quick': '3 live columns, 5 identifiers, 2 samples, role types 0..2 with every combination of list lengths (sum <= 3); '
-                   'target type UNKNOWN/0/1/2; rank argument -1 or 0..count; cleanSameLocator both; identifier negative / too large / live without role / at every list position',
-          'thorough': 'same with 4 live columns, 6 identifiers'},
-  timeout_ms={'quick': 60000, 'thorough': 600000}, validate={'quick': 40, 'thorough': 80}, validate_doubles='int',
-  what='Db::setLocatorByUID with PtrGeos::findUIDInLocator/erase/resize/setLocatorByIndex, Db::clearLocators, isUIDValid/checkArg: '
-       'I preserved, no column with two roles, designated column gets the designated role, every other designation unchanged',
-  out='negative rank arguments other than -1 (the code only tests < 0); explicit ranks beyond the count (C07.g); stale identifiers (C07.a.stale); names',
-  assumptions=_C07ASSUME, stubs=_C07STUBS)
+for _t, _tn in ((-1, 'u'), (0, '0'), (1, '1'), (2, '2')):
+    K('C07.a.' + _tn, property='C07', engine='symex', harness='C07/locator.cpp', entry='k_set_locator', tus=_C07TUS,
+      defines={'all': {'VF_MODE': 0, 'VF_TMIN': _t, 'VF_TMAX': _t},
+               'quick': {'VF_NCOL': 3, 'VF_NUID': 5, 'VF_NECH': 2}, 'thorough': {'VF_NCOL': 4, 'VF_NUID': 6, 'VF_NECH': 2}},
+      bounds={'quick': '3 live columns, 5 identifiers, 2 samples, role types 0..2 with every combination of list lengths (sum <= 3); '
+                       'target type %s; rank argument -1 or 0..count; cleanSameLocator both; identifier negative / too large / live without role / at every list position'
+                       % ('UNKNOWN' if _t < 0 else str(_t)),
+              'thorough': 'same with 4 live columns, 6 identifiers'},
+      timeout_ms={'quick': 120000, 'thorough': 900000}, validate={'quick': 40, 'thorough': 80}, validate_doubles='int',
+      symex={'max_steps': 20000000},
+      what='Db::setLocatorByUID with PtrGeos::findUIDInLocator/erase/resize/setLocatorByIndex, Db::clearLocators, isUIDValid/checkArg: '
+           'I preserved, no column with two roles, designated column gets the designated role, every other designation unchanged',
+      out='negative rank arguments other than -1 (the code only tests < 0); explicit ranks beyond the count (C07.g); stale identifiers (C07.a.stale); '
+          'names; std::vector reallocation (list storage is reserved up front)',
+      assumptions=_C07ASSUME, stubs=_C07STUBS)
